@@ -90,10 +90,18 @@ Proof.
   destruct name; destruct (o_key_tooltip o); destruct (o_summary_tooltip o); reflexivity.
 Qed.
 Lemma wfb_key_cell : forall o k p, forallb wfb (key_cell o k p) = true.
-Proof. intros o k p. unfold key_cell. destruct (o_key_color o) as [[a|] [b|]]; destruct (o_key_tooltip o); reflexivity. Qed.
-
+Proof.
+  intros o k p. unfold key_cell.
+  match goal with |- context [style_attr ?c] => destruct c as [[a|] [b|]] end; destruct (o_key_tooltip o); reflexivity.
+Qed.
 Lemma wfb_table : forall kids, forallb wfb kids = true -> wfb (El s_table [] [] kids) = true.
 Proof. intros kids H. cbn [wfb]. rewrite H. reflexivity. Qed.
+Lemma wfb_hl_wrap : forall o p h, wfb h = true -> wfb (hl_wrap o p h) = true.
+Proof.
+  intros o p h H. unfold hl_wrap.
+  destruct (path_mem p (o_highlight o)); destruct (path_mem p (o_lowlight o)); cbn [orb]; try exact H;
+    cbn [wfb forallb]; rewrite H; reflexivity.
+Qed.
 
 Lemma assoc_key_in : forall {A} k (l : list (key * A)) a, assoc_key k l = Some a -> exists k', In (k', a) l.
 Proof.
@@ -101,6 +109,16 @@ Proof.
   destruct (key_eqb k k').
   - inv H. exists k'. now left.
   - destruct (IH a H) as (k'' & Hin). exists k''. now right.
+Qed.
+
+(* picking rendered children by key keeps any property all rendered children have *)
+Lemma pick_forallb : forall (P : hnode -> bool) (rendered : list (key * hnode)) (l : list key),
+  (forall k h, In (k, h) rendered -> P h = true) ->
+  forallb P (flat_map (fun k => match assoc_key k rendered with Some h => [h] | None => [] end) l) = true.
+Proof.
+  intros P rendered l Hr. apply forallb_forall. intros h Hh. apply in_flat_map in Hh. destruct Hh as (k & _ & Hh).
+  destruct (assoc_key k rendered) as [h'|] eqn:E; [|destruct Hh].
+  destruct Hh as [<-|[]]. destruct (assoc_key_in _ _ _ E) as (k' & Hin). eapply Hr; eauto.
 Qed.
 
 Theorem tv_wfb : forall o v css sc name path cl incl excl, wfb (tv o css sc name path cl incl excl v) = true.
@@ -112,24 +130,25 @@ Proof.
     + reflexivity.
   - cbn [tv].
     set (rendered := map _ items).
-    set (order := ordered_keys incl excl _).
-    set (kids := flat_map _ order).
+    set (order := order_at o path incl excl _).
     assert (Hr : forall k h, In (k, h) rendered -> wfb h = true).
     { intros k h Hin. subst rendered. apply in_map_iff in Hin. destruct Hin as ([k0 c] & E & Hin).
       rewrite Forall_forall in IH. specialize (IH _ Hin). cbn [fst snd] in *. inv E.
-      destruct (sq || o_label_keys o).
-      - cbn [wfb forallb]. rewrite wfb_key_cell, IH. reflexivity.
-      - apply IH. }
-    assert (Hk : forallb wfb kids = true).
-    { subst kids. apply forallb_forall. intros h Hh. apply in_flat_map in Hh. destruct Hh as (k & _ & Hh).
-      destruct (assoc_key k rendered) as [h'|] eqn:E; [|destruct Hh].
-      destruct Hh as [<-|[]]. destruct (assoc_key_in _ _ _ E) as (k' & Hin). eapply Hr; eauto. }
-    assert (Hc : forallb wfb (match kids with
+      destruct (is_label_at o sq path k).
+      - cbn [wfb forallb]. rewrite wfb_key_cell, wfb_hl_wrap by apply IH. reflexivity.
+      - apply wfb_hl_wrap, IH. }
+    set (pick := flat_map (fun k => match assoc_key k rendered with Some h => [h] | None => [] end)).
+    set (skids := pick (filter _ order)).
+    set (lkids := pick (filter (is_label_at o sq path) order)).
+    assert (Hs : forallb wfb skids = true) by (apply pick_forallb; exact Hr).
+    assert (Hl : forallb wfb lkids = true) by (apply pick_forallb; exact Hr).
+    assert (Hk : forallb wfb (skids ++ match lkids with [] => [] | _ :: _ => [El s_table [] [] lkids] end) = true).
+    { rewrite forallb_app, Hs. clearbody lkids. destruct lkids; [reflexivity|]. cbn [forallb andb]. now rewrite (wfb_table _ Hl). }
+    assert (Hc : forallb wfb (match skids ++ match lkids with [] => [] | _ :: _ => [El s_table [] [] lkids] end with
                              | [] => [El s_span [] (class_attr [s_empty_container]) []]
-                             | _ :: _ => if sq || o_label_keys o then [El s_table [] [] kids] else kids
+                             | _ :: _ => skids ++ match lkids with [] => [] | _ :: _ => [El s_table [] [] lkids] end
                              end) = true).
-    { clearbody kids. destruct kids as [|h r]; [reflexivity|]. destruct (sq || o_label_keys o); [|exact Hk].
-      cbn [forallb]. rewrite (wfb_table _ Hk). reflexivity. }
+    { clear -Hk. destruct (skids ++ _); [reflexivity|exact Hk]. }
     destruct (needs_summary o name _).
     + cbn [wfb forallb]. rewrite wfb_summary.
       cbn [wfb forallb] in Hc |- *. rewrite Hc.
@@ -203,83 +222,104 @@ Proof.
   rewrite texts_el. cbn [flat_map]. apply in_or_app. right. apply in_or_app. now left.
 Qed.
 
+Lemma texts_hl_wrap : forall o p h, texts_of (hl_wrap o p h) = texts_of h.
+Proof.
+  intros o p h. unfold hl_wrap. destruct (path_mem p (o_highlight o) || path_mem p (o_lowlight o)); [|reflexivity].
+  rewrite texts_el. cbn [flat_map]. now rewrite app_nil_r.
+Qed.
+
+Lemma pick_in : forall (rendered : list (key * hnode)) (l : list key) k h,
+  In k l -> assoc_key k rendered = Some h ->
+  In h (flat_map (fun k => match assoc_key k rendered with Some h => [h] | None => [] end) l).
+Proof. intros rendered l k h Hk Ha. apply in_flat_map. exists k. split; [assumption|]. rewrite Ha. now left. Qed.
+
 Section Present.
   Variable o : opts.
 
   (* the hnode of child (k, c) inside its parent *)
   Definition child_node (label : bool) (path : list key) (cl' : option Z) (k : key) (c : pv) : hnode :=
     if label
-    then El s_tr [] [] [El s_td [] [] (key_cell o k (path ++ [k])); El s_td [] [] [tv o [] (None, None) None (path ++ [k]) cl' None None c]]
-    else tv o [] (None, None) (Some k) (path ++ [k]) cl' None None c.
+    then El s_tr [] [] [El s_td [] [] (key_cell o k (path ++ [k]));
+                        El s_td [] [] [hl_wrap o (path ++ [k]) (tv o [] (None, None) None (path ++ [k]) cl' None None c)]]
+    else hl_wrap o (path ++ [k]) (tv o [] (None, None) (Some k) (path ++ [k]) cl' None None c).
+
+  Lemma in_order_at : forall path incl excl k (present : list key),
+    In k present -> key_included_at o path incl excl k = true -> In k (order_at o path incl excl present).
+  Proof.
+    intros path incl excl k present Hp Hi. unfold order_at, key_included_at in *.
+    apply andb_prop in Hi. destruct Hi as [Hi He].
+    set (order0 := match o_incl_fn o with Some ps => _ | None => _ end).
+    assert (H0 : In k order0).
+    { subst order0. destruct (o_incl_fn o) as [ps|].
+      - apply filter_In. split; assumption.
+      - destruct incl as [l|]; [|exact Hp]. apply filter_In. split; [now apply key_mem_In|now apply key_mem_In]. }
+    destruct (o_excl_fn o) as [ps|].
+    - apply filter_In. split; assumption.
+    - destruct excl as [l|]; [|exact H0]. apply filter_In. split; assumption.
+  Qed.
 
   (* an included child's node is among the children of the complex-value element, so its texts are texts of the parent *)
   Lemma child_texts : forall sq tn cn fmt items k c css sc name path cl incl excl x,
-    assoc_key k items = Some c -> key_included incl excl k = true ->
-    In x (texts_of (child_node (sq || o_label_keys o) path (option_map (fun n => (n - 1)%Z) cl) k c)) ->
+    assoc_key k items = Some c -> key_included_at o path incl excl k = true ->
+    In x (texts_of (child_node (is_label_at o sq path k) path (option_map (fun n => (n - 1)%Z) cl) k c)) ->
     In x (texts_of (tv o css sc name path cl incl excl (PNode sq tn cn fmt items))).
   Proof.
     intros sq tn cn fmt items k c css sc name path cl incl excl x Ha Hi Hx.
     cbn [tv].
-    set (label := sq || o_label_keys o) in *.
     set (cl' := option_map _ cl) in *.
     set (rendered := map _ items).
-    set (order := ordered_keys incl excl _).
-    set (kids := flat_map _ order).
-    assert (Hr : assoc_key k rendered = Some (child_node label path cl' k c)).
+    set (order := order_at o path incl excl _).
+    set (pick := flat_map (fun k => match assoc_key k rendered with Some h => [h] | None => [] end)).
+    assert (Hr : assoc_key k rendered = Some (child_node (is_label_at o sq path k) path cl' k c)).
     { subst rendered. unfold child_node.
-      exact (assoc_key_map (fun kc => if label
-                 then El s_tr [] [] [El s_td [] [] (key_cell o (fst kc) (path ++ [fst kc])); El s_td [] [] [tv o [] (None, None) None (path ++ [fst kc]) cl' None None (snd kc)]]
-                 else tv o [] (None, None) (Some (fst kc)) (path ++ [fst kc]) cl' None None (snd kc)) k items c Ha). }
-    assert (Ho : In k order).
-    { subst order. unfold ordered_keys. unfold key_included in Hi. apply andb_prop in Hi. destruct Hi as [Hi He].
-      assert (H0 : In k (match incl with None => map fst items | Some l => filter (fun k0 => key_mem k0 (map fst items)) l end)).
-      { destruct incl as [l|].
-        - apply filter_In. split; [now apply key_mem_In|]. apply key_mem_In. eapply assoc_key_present; eauto.
-        - eapply assoc_key_present; eauto. }
-      destruct excl as [l|]; [|exact H0]. apply filter_In. split; assumption. }
-    assert (Hk : In (child_node label path cl' k c) kids).
-    { subst kids. apply in_flat_map. exists k. split; [assumption|]. rewrite Hr. now left. }
+      exact (assoc_key_map (fun kc => if is_label_at o sq path (fst kc)
+                 then El s_tr [] [] [El s_td [] [] (key_cell o (fst kc) (path ++ [fst kc]));
+                                     El s_td [] [] [hl_wrap o (path ++ [fst kc]) (tv o [] (None, None) None (path ++ [fst kc]) cl' None None (snd kc))]]
+                 else hl_wrap o (path ++ [fst kc]) (tv o [] (None, None) (Some (fst kc)) (path ++ [fst kc]) cl' None None (snd kc))) k items c Ha). }
+    assert (Ho : In k order) by (apply in_order_at; [eapply assoc_key_present; eauto|exact Hi]).
+    set (skids := pick (filter _ order)).
+    set (lkids := pick (filter (is_label_at o sq path) order)).
+    assert (Hk : In x (flat_map texts_of (skids ++ match lkids with [] => [] | _ :: _ => [El s_table [] [] lkids] end))).
+    { rewrite flat_map_app. apply in_or_app.
+      destruct (is_label_at o sq path k) eqn:El.
+      - right. assert (Hin : In (child_node true path cl' k c) lkids).
+        { subst lkids pick. eapply pick_in; [apply filter_In; split; [exact Ho|exact El]|exact Hr]. }
+        clearbody lkids. destruct lkids as [|h r]; [destruct Hin|].
+        cbn [flat_map]. rewrite app_nil_r, texts_el. apply in_flat_map. eauto.
+      - left. assert (Hin : In (child_node false path cl' k c) skids).
+        { subst skids pick. eapply pick_in; [apply filter_In; split; [exact Ho|now rewrite El]|exact Hr]. }
+        apply in_flat_map. eauto. }
     apply texts_wrap. rewrite texts_el.
-    clearbody kids. destruct kids as [|h r]; [destruct Hk|].
-    assert (Hf : In x (flat_map texts_of (h :: r))) by (apply in_flat_map; eauto).
-    destruct label; [|exact Hf].
-    cbn [flat_map]. rewrite texts_el, app_nil_r. exact Hf.
+    destruct (skids ++ _) eqn:E; [destruct Hk|exact Hk].
   Qed.
 
   Lemma child_node_texts : forall (label : bool) path cl' k c x,
     In x (texts_of (tv o [] (None, None) (if label then @None key else Some k) (path ++ [k]) cl' None None c)) ->
     In x (texts_of (child_node label path cl' k c)).
   Proof.
-    intros label path cl' k c x H. unfold child_node. destruct label; [|exact H].
+    intros label path cl' k c x H. unfold child_node. destruct label; [|now rewrite texts_hl_wrap].
     rewrite texts_el. cbn [flat_map]. apply in_or_app. right. rewrite texts_el. cbn [flat_map].
-    rewrite !app_nil_r. exact H.
+    rewrite !app_nil_r, texts_hl_wrap. exact H.
   Qed.
 
-  (* below the root no key is filtered: texts of a sub-value are texts of the value *)
-  Lemma sub_texts : forall v p w, sub_at v p w -> forall css sc name path cl,
-    exists css' sc' name' path' cl', forall x, In x (texts_of (tv o css' sc' name' path' cl' None None w)) -> In x (texts_of (tv o css sc name path cl None None v)).
+  (* texts of a sub-value whose path passes the filters are texts of the value *)
+  Lemma sub_texts : forall v p w, sub_at v p w -> forall css sc name path cl incl excl,
+    path_shown o path incl excl p = true ->
+    exists css' sc' name' cl' incl' excl',
+      (p = [] -> incl' = incl /\ excl' = excl) /\ (p <> [] -> incl' = None /\ excl' = None) /\
+      forall x, In x (texts_of (tv o css' sc' name' (path ++ p) cl' incl' excl' w)) -> In x (texts_of (tv o css sc name path cl incl excl v)).
   Proof.
-    induction 1 as [v|sq tn cn fmt items k c p w Ha Hs IH]; intros css sc name path cl.
-    - exists css, sc, name, path, cl. auto.
-    - destruct (IH [] (None, None) (if sq || o_label_keys o then @None key else Some k) (path ++ [k]) (option_map (fun n => (n - 1)%Z) cl)) as (s' & d' & n' & p' & c' & Hin).
-      exists s', d', n', p', c'. intros x Hx.
-      eapply child_texts; [exact Ha|reflexivity|]. apply child_node_texts. apply Hin, Hx.
-  Qed.
-
-  Lemma sub_texts_root : forall v p w, sub_at v p w -> path_included o p = true ->
-    exists css' sc' name' path' cl' incl' excl',
-      (p = [] -> incl' = o_include o /\ excl' = o_exclude o) /\
-      (p <> [] -> incl' = None /\ excl' = None) /\
-      forall x, In x (texts_of (tv o css' sc' name' path' cl' incl' excl' w)) -> In x (texts_of (tree_view o v)).
-  Proof.
-    intros v p w Hs Hp. destruct Hs as [v|sq tn cn fmt items k c p w Ha Hs].
-    - exists (o_css o), (o_summary_color o), (o_name o), (o_root_path o), (o_collapse o), (o_include o), (o_exclude o).
-      split; [auto|]. split; [intros H; now elim H|auto].
-    - destruct (sub_texts c p w Hs [] (None, None) (if sq || o_label_keys o then @None key else Some k) (o_root_path o ++ [k])
-                  (option_map (fun n => (n - 1)%Z) (o_collapse o))) as (s' & d' & n' & p' & c' & Hin).
-      exists s', d', n', p', c', None, None. split; [discriminate|]. split; [auto|].
-      intros x Hx. unfold tree_view. eapply child_texts; [exact Ha|exact Hp|].
-      apply child_node_texts. apply Hin, Hx.
+    induction 1 as [v|sq tn cn fmt items k c p w Ha Hs IH]; intros css sc name path cl incl excl Hp.
+    - exists css, sc, name, cl, incl, excl. rewrite app_nil_r. split; [auto|]. split; [intros H; now elim H|auto].
+    - cbn [path_shown] in Hp. apply andb_prop in Hp. destruct Hp as [Hk Hp].
+      destruct (IH [] (None, None) (if is_label_at o sq path k then @None key else Some k) (path ++ [k])
+                   (option_map (fun n => (n - 1)%Z) cl) None None Hp) as (s' & d' & n' & c' & i' & e' & H0 & H1 & Hin).
+      assert (E : i' = None /\ e' = None).
+      { destruct p as [|k0 p0]; [apply H0; reflexivity|apply H1; discriminate]. }
+      destruct E as [-> ->].
+      exists s', d', n', c', None, None. split; [discriminate|]. split; [auto|].
+      intros x Hx. eapply child_texts; [exact Ha|exact Hk|]. apply child_node_texts. apply Hin.
+      rewrite <- app_assoc. exact Hx.
   Qed.
 
   (* leaves *)
@@ -292,49 +332,62 @@ Section Present.
     In (leaf_text o lk raw rep) (texts_of (tree_view o v)).
   Proof.
     intros v p lk tn cn raw rep fmt Hs Hp.
-    destruct (sub_texts_root v p _ Hs Hp) as (s' & d' & n' & p' & c' & i' & e' & _ & _ & Hin).
+    destruct (sub_texts v p _ Hs (o_css o) (o_summary_color o) (o_name o) (o_root_path o) (o_collapse o) (o_include o) (o_exclude o) Hp)
+      as (s' & d' & n' & c' & i' & e' & _ & _ & Hin).
     apply Hin. apply leaf_text_in.
   Qed.
 
   (* keys *)
   Lemma key_text_in : forall sq tn cn fmt items k c css sc name path cl incl excl t,
-    assoc_key k items = Some c -> key_included incl excl k = true -> key_shown_text o sq k c = Some t ->
+    assoc_key k items = Some c -> key_included_at o path incl excl k = true -> key_shown_text o sq path k c = Some t ->
     In t (texts_of (tv o css sc name path cl incl excl (PNode sq tn cn fmt items))).
   Proof.
     intros sq tn cn fmt items k c css sc name path cl incl excl t Ha Hi Ht.
     eapply child_texts; [exact Ha|exact Hi|].
     unfold key_shown_text in Ht. unfold child_node.
-    destruct (sq || o_label_keys o).
+    destruct (is_label_at o sq path k).
     - inv Ht. rewrite texts_el. cbn [flat_map]. apply in_or_app. left. rewrite texts_el.
       unfold key_cell. cbn [flat_map]. apply in_or_app. left. rewrite texts_el. now left.
-    - destruct (needs_summary o (Some k) c) eqn:En; [|discriminate]. inv Ht.
+    - destruct (needs_summary o (Some k) c) eqn:En; [|discriminate]. inv Ht. rewrite texts_hl_wrap.
       destruct c as [lk tn' cn' raw rep fmt'|sq' tn' cn' fmt' items']; cbn [tv]; rewrite En;
         rewrite texts_el; cbn [flat_map]; apply in_or_app; left;
         unfold summary_el; rewrite texts_el; cbn [flat_map app]; apply in_or_app; left;
         rewrite texts_el; now left.
   Qed.
 
+  Lemma path_shown_app : forall p path incl excl k, path_shown o path incl excl (p ++ [k]) = true ->
+    path_shown o path incl excl p = true /\
+    key_included_at o (path ++ p) (match p with [] => incl | _ => None end) (match p with [] => excl | _ => None end) k = true.
+  Proof.
+    induction p as [|k0 p IH]; intros path incl excl k H.
+    - cbn [app path_shown] in H. apply andb_prop in H. destruct H as [H _]. rewrite app_nil_r. split; [reflexivity|exact H].
+    - cbn [app path_shown] in H |- *. apply andb_prop in H. destruct H as [H0 H].
+      destruct (IH _ _ _ _ H) as [H1 H2]. rewrite H0, H1. split; [reflexivity|].
+      rewrite <- app_assoc in H2. cbn [app] in H2. destruct p; exact H2.
+  Qed.
+
   Theorem all_keys_present : forall v p sq tn cn fmt items k c t,
     sub_at v p (PNode sq tn cn fmt items) -> assoc_key k items = Some c ->
-    path_included o (p ++ [k]) = true -> key_shown_text o sq k c = Some t ->
+    path_included o (p ++ [k]) = true -> key_shown_text o sq (o_root_path o ++ p) k c = Some t ->
     In t (texts_of (tree_view o v)).
   Proof.
     intros v p sq tn cn fmt items k c t Hs Ha Hp Ht.
-    assert (Hp' : path_included o p = true) by (destruct p; [reflexivity|exact Hp]).
-    destruct (sub_texts_root v p _ Hs Hp') as (s' & d' & n' & p' & c' & i' & e' & Hroot & Hdeep & Hin).
+    destruct (path_shown_app _ _ _ _ _ Hp) as [Hp' Hk].
+    destruct (sub_texts v p _ Hs (o_css o) (o_summary_color o) (o_name o) (o_root_path o) (o_collapse o) (o_include o) (o_exclude o) Hp')
+      as (s' & d' & n' & c' & i' & e' & H0 & H1 & Hin).
     apply Hin. eapply key_text_in; eauto.
     destruct p as [|k0 p0].
-    - destruct (Hroot eq_refl) as [-> ->]. exact Hp.
-    - destruct Hdeep as [-> ->]; [discriminate|reflexivity].
+    - destruct (H0 eq_refl) as [-> ->]. exact Hk.
+    - destruct H1 as [-> ->]; [discriminate|exact Hk].
   Qed.
 End Present.
 
 (* with summaries left at their defaults every included key is shown *)
-Lemma default_keys_shown : forall o sq k c,
-  o_enable_summary o = None -> o_summary_for_str o = true -> exists t, key_shown_text o sq k c = Some t.
+Lemma default_keys_shown : forall o sq path k c,
+  o_enable_summary o = None -> o_summary_for_str o = true -> exists t, key_shown_text o sq path k c = Some t.
 Proof.
-  intros o sq k c H1 H2. unfold key_shown_text.
-  destruct (sq || o_label_keys o); [eauto|].
+  intros o sq path k c H1 H2. unfold key_shown_text.
+  destruct (is_label_at o sq path k); [eauto|].
   assert (E : needs_summary o (Some k) c = true).
   { unfold needs_summary. rewrite H1, H2. destruct c; reflexivity. }
   rewrite E. eauto.
@@ -345,17 +398,18 @@ Definition ex_key : key := KStr s_k_i_closed.
 Definition ex_leaf : pv := PLeaf LStr s_str s_str s_k_i s_k_i s_k_i.
 Definition ex_list : pv := PNode true s_k s_k [] [(KInt 0, ex_leaf)].
 Definition ex_value : pv := PNode false s_k s_k [] [(ex_key, ex_list)].
-Definition ex_opts : opts := mkOpts None [] None true 80 true true false (Some [ex_key]) (Some []) (Some 1%Z) [] [s_k] (Some s_k, None) (None, Some s_k).
+Definition ex_opts : opts := mkOpts None [] None true 80 true true false (Some [ex_key]) (Some []) (Some 1%Z) [] [s_k] (Some s_k, None) (None, Some s_k)
+  [[ex_key]] [] (Some [[ex_key; KInt 0]]) None (Some []) None None.
 Example ex_sub : sub_at ex_value [ex_key; KInt 0] ex_leaf.
 Proof. repeat (econstructor; try reflexivity). Qed.
 Example ex_included : path_included ex_opts [ex_key; KInt 0] = true.
 Proof. reflexivity. Qed.
-Example ex_key_shown : key_shown_text ex_opts false ex_key ex_list = Some s_k_i_closed.
+Example ex_key_shown : key_shown_text ex_opts false [] ex_key ex_list = Some s_k_i_closed.
 Proof. reflexivity. Qed.
 Example ex_no_markup_from_data :
   forallb (fun c => negb (c =? c_lt) || true) (render (tree_view ex_opts ex_value)) = true /\
   tags_of (tree_view ex_opts ex_value) =
-    [s_details; s_summary; s_div; s_span; s_div; s_details; s_summary; s_div; s_span; s_div; s_span; s_div; s_table; s_tr; s_td; s_span; s_span; s_td; s_span].
+    [s_details; s_summary; s_div; s_span; s_div; s_div; s_details; s_summary; s_div; s_span; s_div; s_span; s_div; s_table; s_tr; s_td; s_span; s_span; s_td; s_span].
 Proof. split; vm_compute; reflexivity. Qed.
 
 (* ------------------------------------------------------------------------------------------ *)
@@ -381,7 +435,17 @@ Proof.
   destruct name; destruct (o_key_tooltip o); destruct (o_summary_tooltip o); reflexivity.
 Qed.
 Lemma sepb_key_cell : forall o k p, forallb sepb (key_cell o k p) = true /\ forallb (fun x => negb (is_text x)) (key_cell o k p) = true.
-Proof. intros o k p. unfold key_cell. destruct (o_key_color o) as [[a|] [b|]]; destruct (o_key_tooltip o); split; reflexivity. Qed.
+Proof.
+  intros o k p. unfold key_cell.
+  match goal with |- context [style_attr ?c] => destruct c as [[a|] [b|]] end; destruct (o_key_tooltip o); split; reflexivity.
+Qed.
+Lemma sepb_hl_wrap : forall o p h, sepb h = true -> is_text h = false ->
+  sepb (hl_wrap o p h) = true /\ is_text (hl_wrap o p h) = false.
+Proof.
+  intros o p h H1 H2. unfold hl_wrap.
+  destruct (path_mem p (o_highlight o) || path_mem p (o_lowlight o)); [|now split].
+  split; [|reflexivity]. apply sepb_el_kids; cbn [forallb]; [now rewrite H1|now rewrite H2].
+Qed.
 
 Theorem tv_sepb : forall o v css sc name path cl incl excl, sepb (tv o css sc name path cl incl excl v) = true.
 Proof.
@@ -391,27 +455,36 @@ Proof.
     + reflexivity.
   - cbn [tv].
     set (rendered := map _ items).
-    set (order := ordered_keys incl excl _).
-    set (kids := flat_map _ order).
+    set (order := order_at o path incl excl _).
     assert (Hr : forall k h, In (k, h) rendered -> sepb h = true /\ is_text h = false).
     { intros k h Hin. subst rendered. apply in_map_iff in Hin. destruct Hin as ([k0 c] & E & Hin).
       rewrite Forall_forall in IH. specialize (IH _ Hin). cbn [fst snd] in *. inv E.
-      destruct (sq || o_label_keys o).
-      - split; [|reflexivity]. cbn [sepb forallb no_adjacent_texts is_text andb negb].
-        destruct (sepb_key_cell o k (path ++ [k])) as [E1 E2]. rewrite E1, (no_adjacent_no_text _ E2), IH. reflexivity.
-      - split; [apply IH|apply tv_not_text]. }
-    assert (Hk : forallb sepb kids = true /\ forallb (fun x => negb (is_text x)) kids = true).
-    { subst kids. split; apply forallb_forall; intros h Hh; apply in_flat_map in Hh; destruct Hh as (k & _ & Hh);
-        (destruct (assoc_key k rendered) as [h'|] eqn:E; [|destruct Hh]);
-        destruct Hh as [<-|[]]; destruct (assoc_key_in _ _ _ E) as (k' & Hin); destruct (Hr _ _ Hin) as [H1 H2]; [exact H1|now rewrite H2]. }
+      destruct (is_label_at o sq path k).
+      - split; [|reflexivity].
+        destruct (sepb_key_cell o k (path ++ [k])) as [E1 E2].
+        destruct (sepb_hl_wrap o (path ++ [k]) _ (IH [] (None, None) None (path ++ [k]) (option_map (fun n => (n - 1)%Z) cl) None None) (tv_not_text _ _ _ _ _ _ _ _ _)) as [W1 W2].
+        apply sepb_el_kids; [|reflexivity]. cbn [forallb].
+        rewrite (sepb_el_kids s_td [] [] _ E1 E2). rewrite (sepb_el_kids s_td [] [] [_]); [reflexivity| |]; cbn [forallb]; [now rewrite W1|now rewrite W2].
+      - apply sepb_hl_wrap; [apply IH|apply tv_not_text]. }
+    set (pick := flat_map (fun k => match assoc_key k rendered with Some h => [h] | None => [] end)).
+    set (skids := pick (filter _ order)).
+    set (lkids := pick (filter (is_label_at o sq path) order)).
+    assert (Hs1 : forallb sepb skids = true) by (apply pick_forallb; intros k h Hin; apply (Hr k h Hin)).
+    assert (Hs2 : forallb (fun x => negb (is_text x)) skids = true).
+    { apply pick_forallb; intros k h Hin. destruct (Hr k h Hin) as [_ H2]. now rewrite H2. }
+    assert (Hl1 : forallb sepb lkids = true) by (apply pick_forallb; intros k h Hin; apply (Hr k h Hin)).
+    assert (Hl2 : forallb (fun x => negb (is_text x)) lkids = true).
+    { apply pick_forallb; intros k h Hin. destruct (Hr k h Hin) as [_ H2]. now rewrite H2. }
+    assert (Hk : forallb sepb (skids ++ match lkids with [] => [] | _ :: _ => [El s_table [] [] lkids] end) = true
+              /\ forallb (fun x => negb (is_text x)) (skids ++ match lkids with [] => [] | _ :: _ => [El s_table [] [] lkids] end) = true).
+    { rewrite !forallb_app, Hs1, Hs2. clearbody lkids. destruct lkids; [split; reflexivity|]. cbn [forallb andb].
+      rewrite (sepb_el_kids s_table [] [] _ Hl1 Hl2). split; reflexivity. }
     destruct Hk as [Hk1 Hk2].
-    assert (Hc : forall attrs, sepb (El s_div [] attrs (match kids with
+    assert (Hc : forall attrs, sepb (El s_div [] attrs (match skids ++ match lkids with [] => [] | _ :: _ => [El s_table [] [] lkids] end with
                              | [] => [El s_span [] (class_attr [s_empty_container]) []]
-                             | _ :: _ => if sq || o_label_keys o then [El s_table [] [] kids] else kids
+                             | _ :: _ => skids ++ match lkids with [] => [] | _ :: _ => [El s_table [] [] lkids] end
                              end)) = true).
-    { intros attrs. clearbody kids. destruct kids as [|h r]; [reflexivity|]. destruct (sq || o_label_keys o).
-      - apply sepb_el_kids; [|reflexivity]. cbn [forallb]. now rewrite (sepb_el_kids s_table [] [] _ Hk1 Hk2).
-      - apply sepb_el_kids; assumption. }
+    { intros attrs. clear -Hk1 Hk2. destruct (skids ++ _); [reflexivity|]. apply sepb_el_kids; assumption. }
     destruct (needs_summary o name _).
     + apply sepb_el_kids; [|reflexivity]. cbn [forallb]. now rewrite sepb_summary, Hc.
     + apply Hc.
@@ -438,7 +511,7 @@ Qed.
 
 Theorem all_keys_present_parsed : forall o v p sq tn cn fmt items k c t,
   sub_at v p (PNode sq tn cn fmt items) -> assoc_key k items = Some c ->
-  path_included o (p ++ [k]) = true -> key_shown_text o sq k c = Some t -> t <> [] ->
+  path_included o (p ++ [k]) = true -> key_shown_text o sq (o_root_path o ++ p) k c = Some t -> t <> [] ->
   exists d, parse_html (render (tree_view o v)) = Some d /\ In t (flat_map texts_of d).
 Proof.
   intros o v p sq tn cn fmt items k c t Hs Ha Hp Ht Hne.
